@@ -65,7 +65,11 @@ def run_lines(exe, lines, nproc=core.NCPU, timeout=900, out_id_index=0):
             except subprocess.TimeoutExpired as e:
                 rc, so, se = 124, e.stdout or b"", e.stderr or b""
             done = 0
-            for l in so.decode("utf-8", "replace").split("\n"):
+            text = so.decode("utf-8", "replace")
+            parts = text.split("\n")
+            if not text.endswith("\n"):
+                parts = parts[:-1]          # a line cut short by the trap (flushed because it outgrew the stdio buffer) is not an answer: its case is the culprit
+            for l in parts:
                 if not l or " " not in l:
                     continue
                 if out_id_index:
@@ -1032,6 +1036,8 @@ def fuzz_seeds(ctx, rng, gdict):
     valid = [v[0] for v in getattr(ctx, "c03_valid", []) if v[2] is None and len(v[0]) <= 2500][:40]
     modern = valid + [fr for _, fr in leg if len(fr) > 4 and fr[:4] != b"xxxx"]
     seeds["stream"] = [bytes([5 + (i % 3), 0, 14, i & 1]) + f for i, f in enumerate(modern)]
+    # finding C03-stable-outbuffer-null-plus-zero (found by this phase): stable output mode with an empty destination {NULL, 0, 0}
+    seeds["stream"] += [bytes.fromhex("c8dffffe" "0000c800000100c800"), bytes.fromhex("40000e00" "28b52ffd0058010000"), bytes.fromhex("40000e01" "28b52ffd0058010000")]
     seeds["recover"] = [bytes([4 + (i % 4), (i * 2) & 2, 13, (1, 3, 9, 17, 0)[i % 5]]) + f + (modern[(i + 1) % len(modern)] if modern else b"") for i, f in enumerate(modern)]
     blocks = []
     for f in valid:
@@ -1097,8 +1103,11 @@ def fuzz_phase(ctx, gdict):
         if rc != 0 or arts:
             summ = " ".join(re.findall(r"(ERROR: AddressSanitizer[^\n]*|SUMMARY:[^\n]*|runtime error:[^\n]*|[^\n]*Assertion[^\n]*|ERROR: libFuzzer[^\n]*|HISTORY DEPENDENCE[^\n]*|BOUND[^\n]*)", log)[:4]) or log[-300:]
             data = arts[0][1] if arts else b""
+            key = None
+            if re.search(r"zstd_decompress\.c:\d+:\d+: runtime error: applying zero offset to null pointer", log):
+                key = "C03-stable-outbuffer-null-plus-zero"
             ctx.violation(dict(kind="libfuzzer", target=name, input=data.hex(), artifact=arts[0][0] if arts else None, rc=rc, report=log[-3000:]),
-                          what="libFuzzer phase, target %s (ZSTD_LEGACY_SUPPORT=1, ASan+UBSan, assert() enabled): rc=%d after %d executions: %s" % (name, rc, execs, summ[:500]))
+                          what="libFuzzer phase, target %s (ZSTD_LEGACY_SUPPORT=1, ASan+UBSan, assert() enabled): rc=%d after %d executions: %s" % (name, rc, execs, summ[:500]), key=key)
     shutil.rmtree(work, ignore_errors=True)
     ctx.notes["fuzz_phase"] = note
     core.log("libFuzzer phase: " + ", ".join("%s %d exec / %d edges / %.0fs" % (k, v["executions"], v["edges"], v["seconds"]) for k, v in note.items()))
